@@ -13,10 +13,10 @@ Print Assumptions locals_disjoint_in_frame.
 (* the forced local is added only when the function has no frame at all, in which case every
    earlier region is empty (so the forced 8 bytes overlap nothing that can hold data) *)
 Theorem forced_local_only_when_empty : forall sizes, Forall (fun s => 0 <= s) sizes ->
-  frame_bytes sizes true <> snd (alloc_history 0 sizes) ->
+  ensure_bp_frame true (snd (alloc_history 0 sizes)) <> snd (alloc_history 0 sizes) ->
   snd (alloc_history 0 sizes) = 0 /\ Forall (fun r => snd r = 0) (fst (alloc_history 0 sizes)).
 Proof.
-  intros sizes Hnn Hne. unfold frame_bytes, ensure_bp_frame in Hne. cbn [andb] in Hne.
+  intros sizes Hnn Hne. unfold ensure_bp_frame in Hne. cbn [andb] in Hne.
   destruct (snd (alloc_history 0 sizes) =? 0) eqn:E; [|congruence].
   apply Z.eqb_eq in E. split; [exact E|]. apply history_all_zero; assumption.
 Qed.
